@@ -847,7 +847,7 @@ theorem queryColumnNames_eq {T : Tables ν κ} {n : ν} {tmc : TableMem ν κ} {
 theorem DurableAt.query {w : World ν κ} {pre} (hd : DurableAt w pre) (n : ν) (s : List (CName ν))
     (h : queryColumnNames w.mem.tables n = .ok s) : NamesRight w.log n s ∧ s.Nodup := by
   obtain ⟨tmc, htmc⟩ := queryColumnNames_ok_some _ n s h
-  obtain ⟨L, hL1, hL2, hL3⟩ := hd.logcat.cols n
+  obtain ⟨L, hL1, hL2, hL3⟩ := hd.logcat.whole.cols n
   have hc := (hd.tabs _ tmc htmc).content
   rw [← hd.log] at hc
   have := queryColumnNames_eq htmc hc hL1 h
@@ -960,11 +960,19 @@ theorem DurableAt.ingest {P : Params ν κ} {w w' : World ν κ} {r : Request ν
         fun t ht => ⟨(hd.absent t ht).2.1, (hd.absent t ht).1⟩
       have hPres : ∀ t tm, w.mem.tables t = some tm → logOf t w.log ≠ [] ∨ t = .metaTables := by
         intro t tm ht; rw [hd.log]; exact (hd.tabs t tm ht).nonempty
-      have hlc := logcat_ingest hd.logcat ho hwf hT3 hexT hAbs hPres
+      have hlc := logcat_ingest hd.logcat.whole ho hwf hT3 hexT hAbs hPres
       have hwalreq : (w.disk.wal ++ [(⟨w.mem.cat.nextWal, augment r acc, bytes⟩ : WalFile ν κ)]).map (fun f => f.req)
           = w.disk.wal.map (fun f => f.req) ++ [augment r acc] := by
         simp
-      refine ⟨hwal, hd.lossy, hd.metaEq, ?_, ?_, ?_, hlc⟩
+      have hlcAll : LogCatAll (w.log ++ [augment r acc]) := by
+        intro l1 l2 e
+        rcases List.eq_nil_or_concat l2 with h2 | ⟨l2', x, h2⟩
+        · subst h2; rw [List.append_nil] at e; rw [← e]; exact hlc
+        · subst h2
+          rw [List.concat_eq_append, ← List.append_assoc] at e
+          have := List.append_inj' e rfl
+          exact hd.logcat l1 l2' this.1
+      refine ⟨hwal, hd.lossy, hd.metaEq, ?_, ?_, ?_, hlcAll⟩
       · simp only [hwalreq]; rw [hd.log, List.append_assoc]
       · intro t tm' htm'
         simp only [hwalreq]
@@ -995,7 +1003,7 @@ theorem DurableAt.ingest {P : Params ν κ} {w w' : World ν κ} {r : Request ν
               -- a table created by this call gets a share
               have hin : t ∈ acc.metaRows := (ho.rowsMem t).mpr ⟨hw, by rw [hacc_t]; simp⟩
               obtain ⟨L, hL1, hL2, hL3⟩ := hlc.tabs
-              obtain ⟨L0, hM1, hM2, hM3⟩ := hd.logcat.tabs
+              obtain ⟨L0, hM1, hM2, hM3⟩ := hd.logcat.whole.tabs
               have : logOf t (w.log ++ [augment r acc]) ≠ [] := by
                 -- t is listed by the new table catalogue
                 have hlisted : Cell.tname t ∈ readColumn (κ := κ) .name (logOf .metaTables (w.log ++ [augment r acc])) := by
